@@ -293,17 +293,29 @@ class Shape:
             name = last_seg(pat["path"].get("ctor_of") or pat["path"].get("def") or "")
             if name in ("Some", "Ok") and pat["ps"]:
                 self.bind(pat["ps"][0], v, env)
+            elif isinstance(v, tuple) and v[0] == "ctor" and v[1] == name and len(v[2]) == len(pat["ps"]):
+                for p, a in zip(pat["ps"], v[2]):
+                    self.bind(p, a, env)
+            elif isinstance(v, tuple) and v[0] == "obj" and not v[1].startswith("ctor:"):
+                # a field of a decoder object: the same path denotes the same value
+                for i, p in enumerate(pat["ps"]):
+                    self.bind(p, ("obj", "%s.%d" % (v[1], i)), env)
             else:
                 for p in pat["ps"]:
                     self.bind(p, UNK, env)
         elif k == "Struct":
             for f in pat["fields"]:
-                self.bind(f["p"], UNK, env)
+                if isinstance(v, tuple) and v[0] == "obj" and not v[1].startswith("ctor:"):
+                    self.bind(f["p"], ("obj", "%s.%s" % (v[1], f["n"])), env)
+                else:
+                    self.bind(f["p"], UNK, env)
         elif k == "Or":
             for p in pat["ps"]:
                 self.bind(p, v, env)
         elif k == "Slice":
-            for p in pat.get("before", []) + pat.get("after", []):
+            for i, p in enumerate(pat.get("before", [])):
+                self.bind(p, ("obj", "%s[%d]" % (v[1], i)) if isinstance(v, tuple) and v[0] == "obj" else UNK, env)
+            for p in pat.get("after", []):
                 self.bind(p, UNK, env)
 
     # ------------------------------------------------------------------ expression evaluation
@@ -498,17 +510,30 @@ class Shape:
         """Evaluate one control alternative in its own context; returns (value, aborted)."""
         saved = self.ctx
         self.ctx = self.ctx + (label,)
+        n0 = len(self.h.ops)
         try:
             return fn(), False
         except Abort:
+            self.mark_ended(n0, "loop@")
             return UNK, True
         except Ret as r:
             # a `return` inside one alternative ends only that path
             if self.rets:
                 self.rets[-1].append(r.v)
+            self.mark_ended(n0, "call:")
             return UNK, True
         finally:
             self.ctx = saved
+
+    def mark_ended(self, n0, scope_tag):
+        """Operations recorded on an alternative that left its scope early (return: the function activation, break /
+        continue: the loop) are not followed by the rest of that scope."""
+        scope = ()
+        for i, lab in enumerate(self.ctx):
+            if lab.startswith(scope_tag) or lab.startswith("call:"):
+                scope = self.ctx[:i + 1]
+        for o in self.h.ops[n0:]:
+            o.setdefault("ends", (scope, self.ctx))
 
     def join(self, vals):
         vals = [v for v in vals if not (isinstance(v, tuple) and v and v[0] in ("err", "never"))]
@@ -518,18 +543,34 @@ class Shape:
             return vals[0]
         if all(is_il(v) or (isinstance(v, tuple) and v[0] in ("sc", "k")) for v in vals):
             ws = [width_of(v) for v in vals]
+            # the alternatives stay visible below a uniquely named choice node (for read sets); its identity is fresh
+            alts = tuple(to_expr(v) for v in vals[:8])
             if all(weq(ws[0], w, self.assume) is True for w in ws):
                 o = orig(vals[0])
                 for v in vals[1:]:
                     o = common(o, orig(v)) if o == orig(v) or "G" in (o, orig(v)) else None
-                return opaque(ws[0], self.key("join"), o)
-            return opaque(("bits", self.key("join")), self.key("join"))
+                return E(ws[0], trim(("op", self.key("join"), alts)), o)
+            return E(("bits", self.key("join")), trim(("op", self.key("join"), alts)))
         if any(is_il(v) for v in vals):
-            return opaque(("bits", self.key("join")), self.key("join"))
+            return E(("bits", self.key("join")), trim(("op", self.key("join"), tuple(v for v in vals[:8] if is_il(v)))))
         if all(isinstance(v, tuple) and v[0] == "int" for v in vals):
             return I(("sym", self.key("join")))
         if all(isinstance(v, tuple) and v[0] == "reg" for v in vals):
+            ids = []
+            for v in vals:
+                for i in str(v[3]).split("|"):
+                    if i not in ids:
+                        ids.append(i)
+            same_row = all(v[2] == vals[0][2] for v in vals)
+            if len(ids) <= 6 and all(":" in i for i in ids):
+                return ("reg", vals[0][1], vals[0][2] if same_row else None, "|".join(ids))
             return ("reg", vals[0][1], None, self.key("reg"))
+        if all(isinstance(v, tuple) and v[0] == "tuple" for v in vals) and len({len(v[1]) for v in vals}) == 1:
+            return ("tuple", [self.join([v[1][i] for v in vals]) for i in range(len(vals[0][1]))])
+        # enum values of one local type: unit variants carry nothing, the others are merged per variant
+        cts = [v for v in vals if isinstance(v, tuple) and v[0] == "ctor"]
+        if cts and all(isinstance(v, tuple) and v[0] in ("ctor", "path", "none") for v in vals) and len({(v[1], len(v[2])) for v in cts}) == 1:
+            return ("ctor", cts[0][1], tuple(self.join([c[2][i] for c in cts]) for i in range(len(cts[0][2]))))
         return UNK
 
     def ev_If(self, n, env, body):
@@ -627,7 +668,8 @@ class Shape:
         lab = "match@%s" % n.get("l")
         for i, a in enumerate(arms):
             e1 = dict(env)
-            self.bind(a["pat"], sv if self.transparent(a["pat"]) else UNK, e1)
+            structured = isinstance(sv, tuple) and sv[0] in ("obj", "ctor") and not str(sv[1]).startswith("ctor:")
+            self.bind(a["pat"], sv if self.transparent(a["pat"]) or structured else UNK, e1)
             saved_assume = dict(self.assume)
             # width refinement: `match x.bits() { 16 => .. }`
             if isinstance(sv, tuple) and sv[0] == "int" and sv[1] is not None and not isinstance(sv[1], int):
@@ -761,6 +803,13 @@ class Shape:
             args = [self.ev(a, env, body) for a in n["args"]]
             return self.apply(env.get(fn["hid"], UNK), args)
         d = fn.get("ctor_of") or fn.get("def") or ""
+        if d in ("std::mem::swap", "core::mem::swap") and len(n["args"]) == 2:
+            ps = [strip(a) for a in n["args"]]
+            ps = [strip(a["e"]) if a.get("k") == "AddrOf" else a for a in ps]
+            if all(a.get("k") == "Path" and "local" in a.get("res", {}) and a["res"]["hid"] in env for a in ps):
+                h0, h1 = ps[0]["res"]["hid"], ps[1]["res"]["hid"]
+                env[h0], env[h1] = env[h1], env[h0]
+                return ("unit",)
         args = [self.ev(a, env, body) for a in n["args"]]
         if "ctor_of" in fn:
             name = last_seg(d)
@@ -772,10 +821,14 @@ class Shape:
                 return args[0]
             if d.startswith("il::expression::Expression::"):
                 if name in ("Scalar", "Constant") and args:
+                    if name == "Scalar" and isinstance(args[0], tuple) and args[0][0] == "sc" and isinstance(args[0][1], str):
+                        self.h.reads.add(args[0][1])
                     return to_expr(args[0])
                 low = name.lower()
                 if low in BINOPS or low in CMPOPS or low in ("zext", "sext", "trun", "ite"):
                     return self.expr_ctor(low, args, n)
+            if args and d.startswith("translator::"):
+                return ("ctor", name, tuple(args))
             return ("obj", "ctor:" + name)
         return self.call(d, args, n, body)
 
@@ -1162,6 +1215,8 @@ class Shape:
             rid = args[-1]
             if isinstance(rid, tuple) and rid[0] == "path" and last_seg(rid[1]) in self.a64rows:
                 return ("reg", "a64", self.a64rows[last_seg(rid[1])], last_seg(rid[1]))
+            if isinstance(rid, tuple) and rid[0] == "obj" and "param" in rid[1]:
+                return ("reg", "a64", None, "a64reg:" + rid[1])
             return ("reg", "a64", None, self.key("a64reg"))
         if d.startswith("translator::aarch64::register::AArch64Register::") and args and isinstance(args[0], tuple) and args[0][0] == "reg":
             reg = args[0]
@@ -1188,7 +1243,8 @@ class Shape:
                 self.h.ops.append({"kind": "Assign", "block": blk[1] if isinstance(blk, tuple) and blk[0] == "block" else "?",
                                    "ctx": self.ctx, "line": n.get("l"), "fn": self.cur_fn,
                                    "dst": full["name"] if full else None, "dw": full["bits"] if full else None,
-                                   "src": opaque(full["bits"] if full else None, "regset"), "via": "AArch64Register::set"})
+                                   "src": v, "via": "AArch64Register::set",
+                                   "dst_id": None if reg[2] else str(reg[3])[5:] if str(reg[3]).startswith("full:") else str(reg[3])})
                 return ("unit",)
         return None
 
@@ -1249,6 +1305,8 @@ def show_e(e, depth=0):
         return "%s:%s" % ("?" if s[1] is None else hex(s[1]), show_w(w))
     if s[0] == "scalar":
         return "%s:%s" % (s[1] or "?", show_w(w))
+    if s[0] == "op" and s[1].startswith("join#"):
+        return "<%s:%s>" % (s[1], show_w(w))
     if s[0] == "op" and depth < 4:
         return "%s(%s)" % (s[1], ", ".join(show_e(a, depth + 1) for a in s[2]))
     return "<%s:%s>" % (s[1] if len(s) > 1 else s[0], show_w(w))
